@@ -391,6 +391,26 @@ func dropTimeSubs(root *etree.Element) *etree.Element {
 	return c
 }
 
+// periodListChange: "[+end]" a Period was appended, "[-start]" the first Period(s) left, or both; "[other]" otherwise.
+func periodListChange(a, b *etree.Element) string {
+	pa, pb := strings.Split(periodIDs(a), ","), strings.Split(periodIDs(b), ",")
+	// longest suffix of pa that is a prefix of pb
+	for drop := 0; drop <= len(pa); drop++ {
+		rest := pa[drop:]
+		if len(rest) <= len(pb) && strings.Join(rest, ",") == strings.Join(pb[:len(rest)], ",") && len(rest) > 0 {
+			var l []string
+			if len(pb) > len(rest) {
+				l = append(l, "+end")
+			}
+			if drop > 0 {
+				l = append(l, "-start")
+			}
+			return "[" + strings.Join(l, ",") + "]"
+		}
+	}
+	return "[other]"
+}
+
 func periodIDs(root *etree.Element) string {
 	var ids []string
 	for _, p := range root.ChildElements() {
@@ -761,7 +781,7 @@ func runL1x(c *lib.Ctx, ls *lib.Livesim, id string, in c11in, failIn any) (o l1o
 				}
 				if !strings.HasSuffix(key, ":became-static") && periodIDs(d1.Root()) != periodIDs(d2.Root()) {
 					// a Period was added or left the window while publishTime stayed
-					key = "425-but-changed:same-publishTime:period-list"
+					key = "425-but-changed:same-publishTime:period-list" + periodListChange(d1.Root(), d2.Root())
 				}
 				if key == "425-but-changed:same-publishTime:other" && windowStartOnly(dropTimeSubs(d1.Root()), dropTimeSubs(d2.Root())) {
 					// apart from the generated time-subtitle AdaptationSets (ids 100..) only the old end moved:
